@@ -173,8 +173,8 @@ class State:
                 hi += k * a
         return lo, hi
 
-    def entails(self, g):
-        """Does the state entail g <= 0 ?  (sound, incomplete)"""
+    def entails(self, g, deep=True):
+        """Does the state entail g <= 0 ?  (sound, incomplete; deep=False skips the two-fact search)"""
         h = self.hull(g)
         if h is None:
             return True  # unreachable state
@@ -197,7 +197,7 @@ class State:
                     if h2 is not None and h2[1] <= 0:
                         return True
         n = len(cands)
-        if n <= 22:
+        if deep and n <= 22:
             for i in range(n):
                 gi = g.sub(cands[i])
                 for j in range(i + 1, n):
